@@ -236,7 +236,7 @@ def run_sequences(ctx, nseq):
 
 def run(ctx):
     thorough = ctx.tier == 'thorough'
-    ctx.obligations_stage(PROPS, extra_targets=['C18/Examples.vo', 'C18/ZInst.vo'])
+    ctx.obligations_stage(PROPS, extra_targets=['C18/Examples.vo', 'C18/Examples2.vo', 'C18/ZInst.vo'])
     ctx.cov['input_distribution'] = {}
     ctx.assumptions += [
         'model: hand transcription of pyiga.tensor (_normalize_indices, CanonicalTensor, TuckerTensor, join_tucker_bases, '
@@ -335,9 +335,14 @@ META = {
                   'expression (canon_getitem), squeeze of canonical and Tucker tensors, Tucker->canonical (tucker_to_canon), '
                   'the rotate-and-contract loop of apply_tprod equals the multi-way product (apply_tprod_loop), modek_tprod, '
                   'pad (pad_spec*), operator slice (canop_slice), and find_truncation_rank never discards more than tol^2: '
-                  'discarded squared norm = accumulated error and tol^2 < error is false (truncation_error_bound). Not '
-                  'proved, tie only: Tucker __getitem__ assembled, generator ravel order, greedy monotonicity, rank-r '
-                  'Wedderburn, isometry of orthonormal factors. Tie: each step of ~450 (thorough 2500) random operation sequences (length <= 8, orders 1-4, '
+                  'discarded squared norm = accumulated error and tol^2 < error is false (truncation_error_bound). Final '
+                  'round: TensorGenerator.__getitem__ and TuckerTensor.__getitem__ for every accepted index expression '
+                  '(generator_getitem_spec, tucker_getitem); Wedderburn rank reduction over a field with explicit new factors '
+                  'and, by induction, lowrank.aca in exact arithmetic reproduces a sum of r outer products after r accepted '
+                  'crosses with non-zero pivots (wedderburn_rank_reduction_step, aca_rank_reduction*); the energy identity '
+                  'of orthogonal projections behind the gta error history (error_history_energy_*). Not proved, tie only: '
+                  'grou monotonicity, identification of the Tucker projection with the product-basis projection, isometry '
+                  'of orthonormal factors, the aca pivot search. Tie: each step of ~450 (thorough 2500) random operation sequences (length <= 8, orders 1-4, '
                   'singleton axes, rank 0, mixed formats, malformed stream) is replayed by the model at R=Z on the '
                   'structures the implementation produced: factor matrices, cores, scalars and error classes compared '
                   'exactly; likewise _normalize_indices, TensorGenerator accesses, CanonicalOperator algebra and the '
